@@ -3,7 +3,7 @@
 package shimagent
 
 // Concurrency harness for spec/ShimConc.tla and spec/TraceLin.tla (property C11).
-// Overlaid together with harness/shim/zz_verif_shim_test.go (reuses vInst and friends).
+// Overlaid together with harness/shim/zz_verif_shim_test.go (reuses zvfVInst and friends).
 //
 //  1. measures, per operation, the mode in which Server.mu is held while each of its upstream
 //     requests is outstanding (TryLock/TryRLock probes while the proxy withholds the reply) and
@@ -33,8 +33,8 @@ import (
 	"github.com/theparanoids/ysshra/verifh"
 )
 
-// monConn monitors the single connection to the underlying agent.
-type monConn struct {
+// zvfMonConn monitors the single connection to the underlying agent.
+type zvfMonConn struct {
 	net.Conn
 	mu       sync.Mutex
 	wneed    int // bytes of the current request frame still to be written (0 = at a frame boundary)
@@ -46,7 +46,7 @@ type monConn struct {
 	frames   int
 }
 
-func (m *monConn) Write(p []byte) (int, error) {
+func (m *zvfMonConn) Write(p []byte) (int, error) {
 	m.mu.Lock()
 	if m.awaiting && m.wneed == 0 && len(m.whdr) == 0 {
 		m.overlaps++ // a new request begins while another one is outstanding on the single connection
@@ -85,7 +85,7 @@ func (m *monConn) Write(p []byte) (int, error) {
 	return m.Conn.Write(p)
 }
 
-func (m *monConn) Read(p []byte) (int, error) {
+func (m *zvfMonConn) Read(p []byte) (int, error) {
 	n, err := m.Conn.Read(p)
 	m.mu.Lock()
 	q := p[:n]
@@ -120,14 +120,14 @@ func (m *monConn) Read(p []byte) (int, error) {
 	return n, err
 }
 
-func (m *monConn) Overlaps() int {
+func (m *zvfMonConn) Overlaps() int {
 	m.mu.Lock()
 	defer m.mu.Unlock()
 	return m.overlaps
 }
 
-// gate suspends the proxy at the k-th request after arm().
-type gate struct {
+// zvfGate suspends the proxy at the k-th request after arm().
+type zvfGate struct {
 	mu      sync.Mutex
 	n       int
 	at      int
@@ -135,14 +135,14 @@ type gate struct {
 	release chan struct{}
 }
 
-func (g *gate) arm(at int) {
+func (g *zvfGate) arm(at int) {
 	g.mu.Lock()
 	g.n, g.at = 0, at
 	g.reached, g.release = make(chan struct{}), make(chan struct{})
 	g.mu.Unlock()
 }
 
-func (g *gate) hook(req []byte) {
+func (g *zvfGate) hook(req []byte) {
 	g.mu.Lock()
 	g.n++
 	hit := g.at > 0 && g.n == g.at
@@ -154,16 +154,16 @@ func (g *gate) hook(req []byte) {
 	}
 }
 
-// cInst is a vInst whose upstream connection is monitored and gated.
-type cInst struct {
-	*vInst
-	mon *monConn
-	g   *gate
+// zvfCInst is a zvfVInst whose upstream connection is monitored and gated.
+type zvfCInst struct {
+	*zvfVInst
+	mon *zvfMonConn
+	g   *zvfGate
 }
 
-var cUniverse = vUniverse{
+var zvfCUniverse = zvfVUniverse{
 	Keys: []string{"k1", "k2"},
-	Certs: map[string]vCertDef{
+	Certs: map[string]zvfVCertDef{
 		"c1": {Key: "k1", V0: true, V1: true, Yss: true},
 		"c2": {Key: "k1", V0: false, V1: false, Yss: false},
 		"c3": {Key: "k2", V0: true, V1: true, Yss: false},
@@ -173,23 +173,23 @@ var cUniverse = vUniverse{
 	Pass: []string{"p1", "p2"},
 }
 
-// newCInst builds a shim over a gated, monitored connection and brings it into a state in which
+// zvfNewCInst builds a shim over a gated, monitored connection and brings it into a state in which
 // listings have something to purge (expired certificates in memory and in the underlying agent).
-func newCInst(rnd *mrand.Rand, noUp bool, rich bool) *cInst {
-	g := &gate{}
-	var mon *monConn
-	vWrapConn = func(c net.Conn) io.ReadWriteCloser {
-		mon = &monConn{Conn: c}
+func zvfNewCInst(rnd *mrand.Rand, noUp bool, rich bool) *zvfCInst {
+	g := &zvfGate{}
+	var mon *zvfMonConn
+	zvfVWrapConn = func(c net.Conn) io.ReadWriteCloser {
+		mon = &zvfMonConn{Conn: c}
 		return mon
 	}
-	init := vState{Nu: noUp, U: []string{"k1", "k2", "c1", "c3"}}
+	init := zvfVState{Nu: noUp, U: []string{"k1", "k2", "c1", "c3"}}
 	if rich {
 		init.U = append(init.U, "c2")
 	}
-	vInstMu.Lock()
-	in := newInst(&cUniverse, init, false, mrand.New(mrand.NewSource(rnd.Int63()))) // own generator: operations of a hung batch may outlive it
-	vWrapConn = nil
-	vInstMu.Unlock()
+	zvfVInstMu.Lock()
+	in := zvfNewInst(&zvfCUniverse, init, false, mrand.New(mrand.NewSource(rnd.Int63()))) // own generator: operations of a hung batch may outlive it
+	zvfVWrapConn = nil
+	zvfVInstMu.Unlock()
 	in.px.Gate = g.hook
 	in.echo = true
 	in.px.Rewrite = func(req, reply []byte) []byte {
@@ -198,7 +198,7 @@ func newCInst(rnd *mrand.Rand, noUp bool, rich bool) *cInst {
 		}
 		return reply
 	}
-	c := &cInst{vInst: in, mon: mon, g: g}
+	c := &zvfCInst{zvfVInst: in, mon: mon, g: g}
 	if rich {
 		for _, id := range []string{"c5", "c4"} { // a valid and an expired hardware certificate
 			if err := in.srv.AddHardCert(in.pub(id), ""); err != nil {
@@ -209,30 +209,30 @@ func newCInst(rnd *mrand.Rand, noUp bool, rich bool) *cInst {
 	return c
 }
 
-var cHung = map[string]bool{}
+var zvfCHung = map[string]bool{}
 
-var cKinds = []string{"list", "signers", "sign", "add", "remove", "removeall", "addhard", "lock", "unlock", "extension", "forward"}
+var zvfCKinds = []string{"list", "signers", "sign", "add", "remove", "removeall", "addhard", "lock", "unlock", "extension", "forward"}
 
-func cArg(kind string, rnd *mrand.Rand) string {
+func zvfCArg(kind string, rnd *mrand.Rand) string {
 	switch kind {
 	case "sign":
-		return pick(rnd, []string{"k1", "c3", "c5", "c1", "k2"})
+		return zvfPick(rnd, []string{"k1", "c3", "c5", "c1", "k2"})
 	case "add":
-		return pick(rnd, []string{"k1", "c3", "c2", "k2"})
+		return zvfPick(rnd, []string{"k1", "c3", "c2", "k2"})
 	case "remove":
-		return pick(rnd, []string{"c3", "c5", "k2", "c1"})
+		return zvfPick(rnd, []string{"c3", "c5", "k2", "c1"})
 	case "addhard":
-		return pick(rnd, []string{"c1", "c3", "c2"})
+		return zvfPick(rnd, []string{"c1", "c3", "c2"})
 	case "lock", "unlock":
 		return "p1"
 	case "forward":
-		return pick(rnd, []string{"ext", "list"})
+		return zvfPick(rnd, []string{"ext", "list"})
 	}
 	return ""
 }
 
-// clientMuHeld probes the x/crypto agent client's mutex.
-func clientMuHeld(s *Server) bool {
+// zvfClientMuHeld probes the x/crypto agent client's mutex.
+func zvfClientMuHeld(s *Server) bool {
 	v := reflect.ValueOf(s.agent)
 	if v.Kind() == reflect.Ptr {
 		v = v.Elem()
@@ -249,40 +249,48 @@ func clientMuHeld(s *Server) bool {
 	return true
 }
 
-func probeMu(s *Server) string {
-	if s.mu.TryLock() {
-		s.mu.Unlock()
+func zvfProbeMu(s *Server) string {
+	// works for sync.Mutex and sync.RWMutex alike (the type of Server.mu is not part of the property)
+	var mu interface{} = &s.mu
+	if l, ok := mu.(interface {
+		TryLock() bool
+		Unlock()
+	}); ok && l.TryLock() {
+		l.Unlock()
 		return "N"
 	}
-	if s.mu.TryRLock() {
-		s.mu.RUnlock()
+	if rl, ok := mu.(interface {
+		TryRLock() bool
+		RUnlock()
+	}); ok && rl.TryRLock() {
+		rl.RUnlock()
 		return "R"
 	}
 	return "W"
 }
 
-type cMeasure struct {
+type zvfCMeasure struct {
 	Hang  bool     `json:"hang"` // the operation did not complete although nothing ran concurrently
 	Op    string   `json:"op"`
 	Modes []string `json:"modes"` // mode of Server.mu while the i-th upstream request is outstanding
 	Raw   []bool   `json:"raw"`   // request written without the agent client's mutex
 }
 
-func cExecExt(in *vInst, kind, arg string) vRes {
+func zvfCExecExt(in *zvfVInst, kind, arg string) zvfVRes {
 	return in.exec(kind, arg)
 }
 
 // measure runs one operation, suspending it inside each of its upstream requests in turn.
-func measureOp(kind string, rnd *mrand.Rand) cMeasure {
-	m := cMeasure{Op: kind}
+func zvfMeasureOp(kind string, rnd *mrand.Rand) zvfCMeasure {
+	m := zvfCMeasure{Op: kind}
 	for k := 1; k <= 6; k++ {
-		c := newCInst(rnd, rnd.Intn(2) == 0, true)
+		c := zvfNewCInst(rnd, rnd.Intn(2) == 0, true)
 		if kind == "unlock" {
 			if err := c.srv.Lock([]byte("p1")); err != nil {
 				panic(err)
 			}
 		}
-		arg := cArg(kind, rnd)
+		arg := zvfCArg(kind, rnd)
 		if kind == "remove" {
 			arg = "c3"
 		}
@@ -292,7 +300,7 @@ func measureOp(kind string, rnd *mrand.Rand) cMeasure {
 		c.g.arm(k)
 		done := make(chan struct{})
 		go func() {
-			cExecExt(c.vInst, kind, arg)
+			zvfCExecExt(c.zvfVInst, kind, arg)
 			close(done)
 		}()
 		reached := false
@@ -305,8 +313,8 @@ func measureOp(kind string, rnd *mrand.Rand) cMeasure {
 			return m
 		}
 		if reached {
-			m.Modes = append(m.Modes, probeMu(c.srv))
-			m.Raw = append(m.Raw, !clientMuHeld(c.srv))
+			m.Modes = append(m.Modes, zvfProbeMu(c.srv))
+			m.Raw = append(m.Raw, !zvfClientMuHeld(c.srv))
 			close(c.g.release)
 			select {
 			case <-done:
@@ -323,7 +331,7 @@ func measureOp(kind string, rnd *mrand.Rand) cMeasure {
 	return m
 }
 
-type cExperiment struct {
+type zvfCExperiment struct {
 	A, B      string
 	ArgA      string `json:"argA"`
 	ArgB      string `json:"argB"`
@@ -337,9 +345,9 @@ type cExperiment struct {
 	ModeAtHold string `json:"mode"`
 }
 
-func runExperiment(a, b string, hold int, rnd *mrand.Rand) cExperiment {
-	e := cExperiment{A: a, B: b, Hold: hold}
-	c := newCInst(rnd, rnd.Intn(2) == 0, true)
+func zvfRunExperiment(a, b string, hold int, rnd *mrand.Rand) zvfCExperiment {
+	e := zvfCExperiment{A: a, B: b, Hold: hold}
+	c := zvfNewCInst(rnd, rnd.Intn(2) == 0, true)
 	defer c.close()
 	if a == "unlock" || b == "unlock" {
 		// one of them unlocks: start locked unless the other one is the locker
@@ -349,10 +357,10 @@ func runExperiment(a, b string, hold int, rnd *mrand.Rand) cExperiment {
 			}
 		}
 	}
-	e.ArgA, e.ArgB = cArg(a, rnd), cArg(b, rnd)
+	e.ArgA, e.ArgB = zvfCArg(a, rnd), zvfCArg(b, rnd)
 	c.g.arm(hold)
-	doneA, doneB := make(chan vRes, 1), make(chan vRes, 1)
-	go func() { doneA <- cExecExt(c.vInst, a, e.ArgA) }()
+	doneA, doneB := make(chan zvfVRes, 1), make(chan zvfVRes, 1)
+	go func() { doneA <- zvfCExecExt(c.zvfVInst, a, e.ArgA) }()
 	select {
 	case <-c.g.reached:
 		e.Reached = true
@@ -363,9 +371,9 @@ func runExperiment(a, b string, hold int, rnd *mrand.Rand) cExperiment {
 		e.Hang = true
 		return e
 	}
-	e.ModeAtHold = probeMu(c.srv)
-	go func() { doneB <- cExecExt(c.vInst, b, e.ArgB) }()
-	var rb *vRes
+	e.ModeAtHold = zvfProbeMu(c.srv)
+	go func() { doneB <- zvfCExecExt(c.zvfVInst, b, e.ArgB) }()
+	var rb *zvfVRes
 	select {
 	case r := <-doneB:
 		rb = &r
@@ -374,7 +382,7 @@ func runExperiment(a, b string, hold int, rnd *mrand.Rand) cExperiment {
 	}
 	close(c.g.release)
 	tmo := time.After(30 * time.Second)
-	var ra *vRes
+	var ra *zvfVRes
 	for ra == nil || rb == nil {
 		select {
 		case r := <-doneA:
@@ -392,35 +400,35 @@ func runExperiment(a, b string, hold int, rnd *mrand.Rand) cExperiment {
 	return e
 }
 
-type cBatch struct {
+type zvfCBatch struct {
 	Ev    string   `json:"ev"`
 	Bid   string   `json:"bid"`
-	Init  vState   `json:"init"`
-	Ops   []vLabel `json:"ops"`
-	Final vState   `json:"final"`
+	Init  zvfVState   `json:"init"`
+	Ops   []zvfVLabel `json:"ops"`
+	Final zvfVState   `json:"final"`
 	Hang  bool     `json:"hang"`
 	Over  int      `json:"overlaps"`
 }
 
-func runBatch(bi int, n int, rnd *mrand.Rand) cBatch {
-	c := newCInst(rnd, rnd.Intn(2) == 0, rnd.Intn(3) != 0)
+func zvfRunBatch(bi int, n int, rnd *mrand.Rand) zvfCBatch {
+	c := zvfNewCInst(rnd, rnd.Intn(2) == 0, rnd.Intn(3) != 0)
 	defer c.close()
 	if rnd.Intn(5) == 0 {
 		if err := c.srv.Lock([]byte("p1")); err != nil {
 			panic(err)
 		}
 	}
-	b := cBatch{Ev: "batch", Bid: fmt.Sprintf("b%d", bi), Init: c.project()}
+	b := zvfCBatch{Ev: "batch", Bid: fmt.Sprintf("b%d", bi), Init: c.project()}
 	type job struct{ kind, arg string }
 	jobs := make([]job, n)
 	for i := range jobs {
-		k := pick(rnd, cKinds)
-		for cHung[k] {
-			k = pick(rnd, cKinds)
+		k := zvfPick(rnd, zvfCKinds)
+		for zvfCHung[k] {
+			k = zvfPick(rnd, zvfCKinds)
 		}
-		jobs[i] = job{k, cArg(k, rnd)}
+		jobs[i] = job{k, zvfCArg(k, rnd)}
 	}
-	labs := make([]vLabel, n)
+	labs := make([]zvfVLabel, n)
 	start := make(chan struct{})
 	var wg sync.WaitGroup
 	for i := range jobs {
@@ -428,8 +436,8 @@ func runBatch(bi int, n int, rnd *mrand.Rand) cBatch {
 		go func(i int) {
 			defer wg.Done()
 			<-start
-			res := cExecExt(c.vInst, jobs[i].kind, jobs[i].arg)
-			labs[i] = vLabel{Op: jobs[i].kind, Arg: jobs[i].arg, F: vFault{"none", "none"}, Res: res}
+			res := zvfCExecExt(c.zvfVInst, jobs[i].kind, jobs[i].arg)
+			labs[i] = zvfVLabel{Op: jobs[i].kind, Arg: jobs[i].arg, F: zvfVFault{"none", "none"}, Res: res}
 		}(i)
 	}
 	close(start)
@@ -458,9 +466,9 @@ func TestVerifConc(t *testing.T) {
 	}
 	rnd := verifh.NewRand("conc", 0)
 	// 1. lock table
-	var table []cMeasure
-	for _, k := range cKinds {
-		m := measureOp(k, rnd)
+	var table []zvfCMeasure
+	for _, k := range zvfCKinds {
+		m := zvfMeasureOp(k, rnd)
 		table = append(table, m)
 	}
 	tr.Emit(map[string]interface{}{"ev": "measure", "table": table})
@@ -471,18 +479,18 @@ func TestVerifConc(t *testing.T) {
 	for _, m := range table {
 		nreq[m.Op] = len(m.Modes)
 		hung[m.Op] = m.Hang
-		cHung[m.Op] = m.Hang
+		zvfCHung[m.Op] = m.Hang
 	}
 	reps := verifh.EnvInt("VERIF_CONC_REPS", 1)
 	nexp := 0
 	for rep := 0; rep < reps; rep++ {
-		for _, a := range cKinds {
-			for _, b := range cKinds {
+		for _, a := range zvfCKinds {
+			for _, b := range zvfCKinds {
 				if hung[a] || hung[b] {
 					continue
 				}
 				for h := 1; h <= nreq[a]; h++ {
-					e := runExperiment(a, b, h, rnd)
+					e := zvfRunExperiment(a, b, h, rnd)
 					tr.Emit(map[string]interface{}{"ev": "exp", "e": e})
 					nexp++
 				}
@@ -497,13 +505,13 @@ func TestVerifConc(t *testing.T) {
 		if bi%10 == 9 {
 			n = 8 + rnd.Intn(9)
 		}
-		b := runBatch(bi, n, rnd)
+		b := zvfRunBatch(bi, n, rnd)
 		tr.Emit(b)
 	}
 	if err := tr.Close(); err != nil {
 		t.Fatal(err)
 	}
-	u, _ := json.Marshal(cUniverse)
+	u, _ := json.Marshal(zvfCUniverse)
 	keys := make([]string, 0)
 	for _, m := range table {
 		keys = append(keys, fmt.Sprintf("%s:%v", m.Op, m.Modes))
